@@ -166,7 +166,12 @@ fn run_tasks(v: &Value) -> Value {
         }
         if disturb & 2 != 0 {
             // bit 1: host code blocks on a small future between two calls
-            let _ = catch_unwind(AssertUnwindSafe(|| sc62015_core::async_driver::block_on(async { sleep_cycles(2).await })));
+            // (the host future emits an event of its own before it suspends: it belongs to nobody's task, block_on drops
+            //  it, and no driver may ever return it)
+            let _ = catch_unwind(AssertUnwindSafe(|| sc62015_core::async_driver::block_on(async {
+                emit_event(DriverEvent::User(0x00BA_D0E7));
+                sleep_cycles(2).await
+            })));
         }
         let r = catch_unwind(AssertUnwindSafe(|| driver.run_for(cur)));
         let r = match r {
